@@ -56,6 +56,9 @@ var c10Offences = []c10Offence{
 	{"frame-above-max-size", []uint32{cFRAMESIZE}, func(x *c10Run) []byte {
 		return raw(peer.Frame{Type: peer.TData, Stream: x.anyStream(), Payload: make([]byte, 16385)})
 	}},
+	{"unknown-type-frame-above-max-size", []uint32{cFRAMESIZE}, func(x *c10Run) []byte {
+		return raw(peer.Frame{Type: 0x1f, Payload: make([]byte, 16385)})
+	}},
 	{"continuation-without-headers", []uint32{cPROTOCOL}, func(x *c10Run) []byte { return raw(peer.Continuation(x.anyStream(), nil, true)) }},
 	{"frame-inside-header-block", []uint32{cPROTOCOL}, func(x *c10Run) []byte {
 		id := x.newID()
@@ -253,6 +256,14 @@ func c10Exec(cs c10Case) (*fw.Violation, *harness.Server) {
 			}
 		case "half-frame":
 			h.Send(peer.RawHeader(100, peer.TData, 0, x.anyStream()))
+		case "rst-running":
+			// the peer gives up the requests whose handlers are still running (it has not seen the GOAWAY yet,
+			// or does not care), then stays connected and silent
+			for _, c := range h.Calls {
+				if !c.Returned && c.Stream != 0 && !h.Returned {
+					h.SendFrames(peer.RstStream(c.Stream, 8))
+				}
+			}
 		}
 	}
 	trail()
@@ -380,9 +391,9 @@ func runC10(c *fw.Ctx) {
 	thorough := c.Tier == "thorough"
 	var item int64
 	sampled := 0
-	trailings := []string{"none", "request", "pings", "half-frame", "data-same-segment", "requests-same-segment", "window-updates-same-segment", "settings-same-segment"}
+	trailings := []string{"none", "request", "pings", "half-frame", "rst-running", "data-same-segment", "requests-same-segment", "window-updates-same-segment", "settings-same-segment"}
 	if thorough {
-		trailings = []string{"none", "request", "pings", "request+pings", "data-flood", "half-frame", "data-same-segment", "requests-same-segment", "window-updates-same-segment", "settings-same-segment"}
+		trailings = []string{"none", "request", "pings", "request+pings", "data-flood", "half-frame", "rst-running", "data-same-segment", "requests-same-segment", "window-updates-same-segment", "settings-same-segment"}
 	}
 	for _, off := range c10Offences {
 		for before := 0; before <= 2; before++ {
